@@ -81,6 +81,10 @@ def materialise(case):
         # fuzzy positions (<5, >8, (5.8), 5^8, one-of(5,8)) on one feature in five: they denote the same nucleotides as exact ones
         if rdup.random() < 0.2:
             f["fuzzy"] = gen.fuzzy_kinds(rdup, len(f["parts"]))
+    rid = gen.rng_for(case["seed"], PROP, "feature-ids", case["i"])
+    for j, f in enumerate(feats):
+        if rid.random() < 0.4:
+            f["fid"] = "feat%04d" % j            # identifiers as annotation pipelines assign them
     rec = {"id": "r%d" % case["i"], "seq": seq, "features": feats, "annotations": {"topology": "circular", "molecule_type": "DNA"}}
     if rng.random() < 0.5:
         rec["letters"] = {"phred_quality": [rng.randint(0, 60) for _ in range(n)]}
